@@ -51,6 +51,13 @@ def main():
     out['confirmed'] = bool(out.get('patch_applies') and out['tests_pass']
                             and out['demo_without_patch'] == 0 and
                             out['demo_with_patch'] != 0)
+    if '--confirm-only' in sys.argv:
+        out['checks'] = {}
+        out['detected_by'] = []
+        out['inconclusive'] = []
+        out['reports'] = {}
+        print(json.dumps(out, indent=1))
+        return
     # run the checks against the patched /repo
     rc, o = sh('git -C /repo status --porcelain')
     if o.strip():
